@@ -1416,6 +1416,27 @@ func (r fxQP) Mul(p ring.Poly, scalar []uint64, pOut ring.Poly) {
 	r.RingP.MulRNSScalarMontgomery(p, scalarP, pOut)
 }
 
+// MODCARRY control: the sample itself is reduced modulo each prime in turn
+func spreadSample(x uint64, moduli []uint64, out []uint64) {
+	for j, qi := range moduli {
+		if x >= qi {
+			x %= qi
+		}
+		out[j] = x
+	}
+}
+
+// DIGITMAX control: the digit loop stops at the length of the first row
+func fillDigits(m [][]uint64, sizes []int) {
+	for j := range m[0] {
+		for i := range m {
+			if j < sizes[i] {
+				m[i][j] = 1
+			}
+		}
+	}
+}
+
 `
 
 // control runs scan over the fixture and demands a violation whose key contains each of the wanted substrings.
